@@ -10,7 +10,8 @@ Property on the real code: an independent dynamic programme (restricted edit dis
 with unit costs for the enabled kinds) decides for every word up to a length bound whether
 it is within k edits of the reference string; the real `accepts_input` of the real result
 must agree; words with a symbol outside the alphabet must be rejected; k < 0 or no
-enabled kind must raise ValueError.
+enabled kind must raise ValueError.  None of this may depend on the process-wide options of
+automata.base.config (round 5: `global_options_family`).
 """
 from __future__ import annotations
 
@@ -18,6 +19,7 @@ import itertools
 import json
 import random
 
+import automata.base.config as global_config
 from automata.fa.nfa import NFA
 
 from harness import gen
@@ -45,7 +47,14 @@ RULE = ("cases = (alphabet, reference string, k, insertion, deletion, substituti
         ".copy()) is asked every word up to |ref|+k+1, the neighbours of the reference, random-edit and foreign-symbol words "
         "TWICE in shuffled orders, with 0–2 other calls in between (determinise, eliminate_lambda, reverse, A/A, == copy, "
         "stepwise read), each answer judged by the DP; bounded-exhaustive for references ≤2 over {a,b} / {a}, k ≤ 2, 7 flag "
-        "sets; a case is non-trivial when the reference string is non-empty and 1 ≤ k and k "
+        "sets; round 5: the two global switches of automata.base.config — EVERY refused argument tuple of the bounded-exhaustive "
+        "part (references ≤3 over {a,b}, ≤2 over {a}, empty over ∅; k = −1 with all 8 flag sets, k ∈ {0,1,2} with no kind "
+        "enabled), bounds −2, −256, −257, −10^6, refusals whose reference string is outside the alphabet, a random stream of "
+        "refused tuples (special-character alphabets, references up to 300 symbols), and a slice of the accepted cases "
+        "(references ≤2 over {a,b}, k ≤ 2, 7 flag sets; random alphabets of 1–3 symbols, references ≤5, k ≤ 3) are each run "
+        "under all four combinations of should_validate_automata × allow_mutable_automata (restored afterwards) and judged "
+        "by the same oracle as under the defaults: ValueError for refused tuples, DP on every word up to |ref|+k+1 for "
+        "accepted ones; a case is non-trivial when the reference string is non-empty and 1 ≤ k and k "
         "is smaller than the reference length + 2; distinct = distinct argument tuples")
 ASSUMPTIONS = [
     "input_symbols is a set of single characters; the reference string is a str; max_edit_distance is an int",
@@ -55,6 +64,11 @@ ASSUMPTIONS = [
     "the language clause is about reference strings over the alphabet; for any other reference string (k ≥ 0, some kind "
     "enabled) the constructor raises InvalidSymbolError — theorem C16_ref_outside_alphabet, modelled, compared and "
     "evaluated on the real code",
+    "the property does not mention the library's global options (automata.base.config.should_validate_automata, "
+    "allow_mutable_automata): refusals and results must be the same for every setting of both. One exception, not judged: "
+    "with should_validate_automata=False a reference string outside the alphabet is not refused with InvalidSymbolError — "
+    "that refusal is the definition validation which the switch documents away (counted as "
+    "global_options_ref_outside_alphabet_validation_off_not_judged)",
     "no \"\" in input_symbols: the model cannot represent it (labels are Option α, ε = none). Since /repo 07f4843 the "
     "constructor refuses it with InvalidSymbolError (probed on every run). Before that fix, replay: "
     "NFA.edit_distance({\"\", \"a\"}, \"aa\", 1, insertion=False, deletion=False, substitution=True) accepted \"a\" "
@@ -64,7 +78,11 @@ EXPLANATION = ("Theorem C16_edit_distance states that the model NFA accepts w if
                "with at most k enabled edits turns the reference string into w; this run ties the model to the "
                "code by exact comparison of the constructed automaton and evaluates the property on the real "
                "result against an independent DP and against an operational BFS over single edits "
-               "(theorem C16_edit_distance_operational: the two readings are proved equivalent).")
+               "(theorem C16_edit_distance_operational: the two readings are proved equivalent). Theorems "
+               "C16_negative_bound / C16_no_edit_kind (ValueError whatever the other arguments) and the language clause "
+               "are also evaluated on the real code under all four settings of the library's two global switches, which "
+               "the model does not have: one model answer per argument tuple is compared with the code's answer "
+               "under every setting.")
 
 
 def dp_within(ref: str, w: str, k: int, ins: bool, dele: bool, sub: bool) -> bool:
@@ -486,6 +504,252 @@ def mutable_option_family(ctx: Ctx):
                    interleave=rng.choice([0, 1, 2]), origin="mutable_option", max_words=100)
 
 
+# ------------------------------------------------------------------ round 5: the library's GLOBAL OPTIONS
+# automata.base.config has two process-wide switches: should_validate_automata (default True; False = the constructor
+# skips the consistency validation of the DEFINITION) and allow_mutable_automata (default False; True = the
+# constructor keeps the caller's containers).  Neither is an argument of edit_distance and the property does not
+# mention them: "for every alphabet, reference string, bound, enabled subset" and "a negative bound or no enabled
+# kind is refused with ValueError" hold for every setting of both.  First = the default configuration (control).
+OPTION_COMBOS = [(True, False), (False, False), (True, True), (False, True)]      # (should_validate, allow_mutable)
+
+
+class global_options:
+    """`with global_options(validate, mutable):` — both switches of automata.base.config are set inside; the values
+    found on entry are put back on exit, also when the body raises."""
+
+    def __init__(self, validate: bool, mutable: bool):
+        self.validate, self.mutable = validate, mutable
+
+    def __enter__(self):
+        self.old = (global_config.should_validate_automata, global_config.allow_mutable_automata)
+        global_config.should_validate_automata = self.validate
+        global_config.allow_mutable_automata = self.mutable
+        return self
+
+    def __exit__(self, *a):
+        global_config.should_validate_automata, global_config.allow_mutable_automata = self.old
+
+
+_MODEL_LINES: dict = {}     # argument tuple -> answer of the model (the model has no options: one answer per tuple)
+
+
+def check_options(ctx: Ctx, sigma, ref: str, k: int, ins: bool, dele: bool, sub: bool, validate: bool, mutable: bool,
+                  origin: str, max_words: int = 70, model: bool = True):
+    """ONE edit_distance call (and, when it returns, the membership queries on its result) under the given values of
+    the two global switches, judged by the same oracle as in the default configuration:
+      * k < 0 or no kind enabled                      -> ValueError, whatever the switches (and whatever the reference);
+      * otherwise, reference over the alphabet        -> an NFA; every word up to the length bound, the neighbours of
+        the reference string and four words with a foreign symbol judged by the alignment DP on the ARGUMENTS; the
+        result passes an explicit .validate();
+      * otherwise (reference outside the alphabet)    -> InvalidSymbolError when should_validate_automata is True
+        (C16_ref_outside_alphabet); with the definition validation switched off this refusal IS what the switch
+        documents away, so the case is counted and not judged.
+    The queries are deterministic (no random-edit words): the recorded step is the whole case."""
+    step = dict(kind="global_options", input_symbols=sorted(sigma), reference_str=ref, max_edit_distance=k, insertion=ins,
+                deletion=dele, substitution=sub, should_validate_automata=validate, allow_mutable_automata=mutable,
+                max_words=max_words)
+    CALLS.append(step)
+    n_before = len(ctx.prop_fails)
+    entry = (global_config.should_validate_automata, global_config.allow_mutable_automata)
+    try:
+        with global_options(validate, mutable):
+            _check_options(ctx, step, sigma, ref, k, ins, dele, sub, validate, mutable, origin, max_words, model)
+    finally:
+        if (global_config.should_validate_automata, global_config.allow_mutable_automata) != entry:
+            # the library itself flipped a switch during the call and left it: put it back, and say so
+            left = (global_config.should_validate_automata, global_config.allow_mutable_automata)
+            global_config.should_validate_automata, global_config.allow_mutable_automata = entry
+            ctx.stat("global_options_switch_left_changed")
+            ctx.note(f"after edit_distance under options {(validate, mutable)} the global switches were left at {left} (restored)")
+        for f in ctx.prop_fails[n_before:]:
+            f["_calls"] = len(CALLS)
+            f["_tail"] = [dict(step)]
+
+
+def _check_options(ctx, step, sigma, ref, k, ins, dele, sub, validate, mutable, origin, max_words, model):
+    sy = Names(sorted(set(sigma) | set(ref)))
+    alpha = sorted(sigma)
+    opts = f"should_validate_automata={validate}, allow_mutable_automata={mutable}"
+    what = f"under {opts}: edit_distance({alpha!r}, {shown(ref)}, k={k}, ins={ins}, del={dele}, sub={sub})"
+    res = call(lambda: NFA.edit_distance(set(sigma), ref, k, insertion=ins, deletion=dele, substitution=sub))
+    in_domain = all(c in sigma for c in ref)
+    should_refuse = k < 0 or not (ins or dele or sub)
+    tag = f"v{int(validate)}m{int(mutable)}"
+    ctx.stat(origin)
+    ctx.stat(f"global_options_{tag}")
+    ok = True
+    judged = True
+    if should_refuse:
+        why = "negative_bound" if k < 0 else "no_edit_kind"
+        if k < 0 and not (ins or dele or sub):
+            why = "negative_bound_and_no_edit_kind"
+        ctx.stat(f"global_options_refusal_{why}")
+        ctx.stat(f"global_options_refusal_{tag}")
+        if not in_domain:
+            ctx.stat("global_options_refusal_with_ref_outside_alphabet")
+        if res != ("err", "ValueError"):
+            ok = False
+            if res[0] == "ok":
+                try:
+                    got = f"returned an NFA with {len(res[1].states)} states"
+                except Exception:                                              # noqa: BLE001
+                    got = "returned " + type(res[1]).__name__
+            else:
+                got = "raised " + res[1]
+            # which settings of the switches refuse these very arguments (names the switch the refusal depends on)
+            others = []
+            for v2, m2 in OPTION_COMBOS:
+                with global_options(v2, m2):
+                    r2 = call(lambda: NFA.edit_distance(set(sigma), ref, k, insertion=ins, deletion=dele, substitution=sub))
+                others.append(f"({v2}, {m2}): {'ValueError' if r2 == ('err', 'ValueError') else 'NOT refused' if r2[0] == 'ok' else r2[1]}")
+            ctx.prop_fail(f"{what} — {'a negative bound' if k < 0 else 'no edit kind enabled'} — was not refused with "
+                          f"ValueError: {got} [same arguments under (should_validate, allow_mutable) = {'; '.join(others)}]",
+                          dict(step, failure="not refused"), None)
+    elif not in_domain:
+        ctx.stat("global_options_ref_outside_alphabet")
+        if validate:
+            if res != ("err", "InvalidSymbolError"):
+                ok = False
+                ctx.prop_fail(f"{what} with a reference string not over the alphabet was not refused with "
+                              f"InvalidSymbolError: {res[0]} {res[1] if res[0] == 'err' else ''}",
+                              dict(step, failure="ref outside alphabet not refused"), None)
+        else:
+            judged = False
+            ctx.stat("global_options_ref_outside_alphabet_validation_off_not_judged")
+    else:
+        ctx.stat(f"global_options_accepted_{tag}")
+        if res[0] == "err":
+            ok = False
+            ctx.prop_fail(f"{what} raised {res[1]} on valid arguments", dict(step, failure=res[1]), None)
+        else:
+            R = res[1]
+            bound = min(len(ref) + k + 1, 7)
+            while bound > 1 and sum(len(alpha) ** i for i in range(bound + 1)) > max_words:
+                bound -= 1
+            foreign = foreign_for(alpha)
+            ws = list(gen.words_upto(alpha, bound)) + boundary_words(ref, alpha)
+            ws += [foreign, ref + foreign, foreign + ref, ref[:1] + foreign + ref[1:]]
+            for w in dict.fromkeys(ws):
+                exp = set(w) <= set(sigma) and dp_within(ref, w, k, ins, dele, sub)
+                got = call(lambda: R.accepts_input(w))
+                ctx.stat("global_options_query")
+                if got != ("ok", exp):
+                    ok = False
+                    ctx.prop_fail(f"{what}: accepts_input({shown(w)}) is {got[1] if got[0] == 'ok' else 'raised ' + got[1]}, "
+                                  f"but the word is {'within' if exp else 'not within'} {k} enabled edits of the reference "
+                                  f"string (alignment DP)", dict(step, failure="language-options", word=w, expected=exp), None)
+                    break
+            if ok:
+                v = call(R.validate)
+                if v[0] == "err":
+                    ok = False
+                    ctx.prop_fail(f"{what} returned an NFA that does not pass validate(): {v[1]}",
+                                  dict(step, failure="invalid"), None)
+    nontrivial = ok and judged and (should_refuse or (in_domain and len(ref) >= 1 and 1 <= k < len(ref) + 2))
+    ctx.case(("options", tuple(alpha), ref, k, ins, dele, sub, validate, mutable) if nontrivial else None)
+    if res[0] == "err":
+        ctx.stat("global_options_raised_" + res[1])
+    # --- correspondence: the model has no switches; its answer is the answer for every setting (except the one
+    # refusal that should_validate_automata=False documents away)
+    if model and judged:
+        key = (tuple(alpha), ref, k, ins, dele, sub)
+        if key not in _MODEL_LINES:
+            order = [sy(a) for a in set(sigma)]
+            _MODEL_LINES[key] = L.parse_res_nfag(ctx.driver("drv_nfa_ops").ask(
+                toks("EDIT", len(order), order, len(ref), [sy(c) for c in ref], k, ins, dele, sub)))
+        mod = _MODEL_LINES[key]
+        if res[0] == "ok":
+            p = call(lambda: L.plain(res[1], sy, lambda q: tuple(q) if isinstance(q, tuple) else ("?", repr(q))))
+            impl = ("ok", p[1]) if p[0] == "ok" else ("ok", "unreadable result: " + p[1])
+        else:
+            impl = res
+        if impl != mod:
+            ctx.corr_diff(f"EDIT ({opts})", step, repr(impl)[:1500], repr(mod)[:1500])
+
+
+def global_options_family(ctx: Ctx):
+    """Round 5.  Every REFUSAL case of the bounded-exhaustive part (every reference string of length ≤3 over {a,b}, ≤2
+    over {a}, the empty one over ∅; k = −1 with all 8 flag sets, k ∈ {0,1,2} with no kind enabled), far negative bounds,
+    refusals whose reference string is not over the alphabet or is made of special characters, and a random stream
+    of refused argument tuples — and a SLICE of the accepted cases (every reference string of length ≤2 over {a,b},
+    k ∈ {0,1,2}, 7 flag sets; a random stream over 1–3 symbols, references ≤5, k ≤ 3) — each under all four
+    combinations of should_validate_automata × allow_mutable_automata."""
+    rng = ctx.rng
+    entry = (global_config.should_validate_automata, global_config.allow_mutable_automata)
+
+    def all_combos(sigma, ref, k, fl, origin, **kw):
+        for validate, mutable in OPTION_COMBOS:
+            check_options(ctx, sigma, ref, k, *fl, validate=validate, mutable=mutable, origin=origin, **kw)
+
+    try:
+        # 1. refusals, bounded-exhaustive: the same sub-domain as part 1 of run_families
+        for alpha, maxlen in ((("a", "b"), 3), (("a",), 2), ((), 0)):
+            for n in range(maxlen + 1):
+                for ref in map("".join, itertools.product(alpha, repeat=n)):
+                    for fl in FLAGS:
+                        all_combos(alpha, ref, -1, fl, "global_options_refusal_exhaustive")
+                    for k in (0, 1, 2):
+                        all_combos(alpha, ref, k, (False, False, False), "global_options_refusal_exhaustive")
+        # far negative bounds; refusal takes precedence over a reference string outside the alphabet; special symbols
+        for ref in ("", "a", "ab"):
+            for k in (-2, -256, -257, -10 ** 6):
+                for fl in ((True, True, True), (False, True, False), (False, False, False)):
+                    all_combos(("a", "b"), ref, k, fl, "global_options_refusal_exhaustive")
+        for sigma, ref in ((("a",), "b"), (("a",), "ab"), ((), "a"), ((".", "a"), "."), (("*", "\n"), "*\n*")):
+            for k, fl in ((-1, (True, True, True)), (-1, (False, False, True)), (0, (False, False, False)),
+                          (1, (False, False, False)), (-3, (False, False, False))):
+                all_combos(sigma, ref, k, fl, "global_options_refusal_exhaustive")
+        ctx.exhaustive("global options: every refused argument tuple with a reference string of length ≤3 over {a,b}, ≤2 over "
+                       "{a}, empty over ∅ (k = −1 with all 8 flag sets; k ∈ {0,1,2} with no kind enabled), bounds −2, −256, −257, "
+                       "−10^6, refusals with a reference string outside the alphabet — each under all 4 combinations of "
+                       "should_validate_automata × allow_mutable_automata: ValueError")
+        # 2. refusals, random
+        for _ in range(ctx.budget(60, 600)):
+            if rng.random() < 0.35:
+                alpha = rng.sample(SPECIAL_SYMBOLS, rng.randint(1, 3))
+            else:
+                alpha = list(rng.choice([("a", "b"), ("a",), ("a", "b", "c"), ("0", "1"), ("x", "y", "z", "w"), ()]))
+            n = rng.choice([257, 300]) if rng.random() < 0.08 else rng.randint(0, 7)
+            ref = "".join(rng.choice(alpha) for _ in range(n)) if alpha else ""
+            if rng.random() < 0.5:
+                k, fl = rng.choice([-1, -1, -2, -3, -5, -256, -257, -1000]), rng.choice(FLAGS)
+            else:
+                k, fl = rng.choice([0, 1, 2, 3, 7, 300]), (False, False, False)
+                if n > 7 and k > 3:
+                    k = 2                                                # (a tree that does not refuse builds the grid)
+            if rng.random() < 0.1 and ref:
+                alpha = [a for a in alpha if a != ref[0]]                # refusal comes before the constructor
+            all_combos(alpha, ref, k, fl, "global_options_refusal_random")
+        # 3. a slice of the accepted cases, bounded-exhaustive
+        for n in range(3):
+            for ref in map("".join, itertools.product("ab", repeat=n)):
+                for k in (0, 1, 2):
+                    for fl in FLAGS[1:]:
+                        all_combos(("a", "b"), ref, k, fl, "global_options_accepted_exhaustive")
+        ctx.exhaustive("global options: every reference string of length ≤2 over {a,b}, k ∈ {0,1,2}, 7 flag sets under all 4 "
+                       "combinations of should_validate_automata × allow_mutable_automata; all words up to length |ref|+k+1 "
+                       "(+ neighbours of the reference, foreign-symbol words) judged by the DP")
+        # 4. accepted cases, random (8 %: reference outside the alphabet — InvalidSymbolError when validation is on)
+        for _ in range(ctx.budget(40, 500)):
+            if rng.random() < 0.3:
+                alpha = rng.sample(SPECIAL_SYMBOLS, rng.randint(1, 3))
+            else:
+                alpha = list(rng.choice([("a", "b"), ("a",), ("a", "b", "c"), ("0", "1")]))
+            n = rng.randint(0, 5)
+            ref = rng.choice(alpha) * n if rng.random() < 0.25 else "".join(rng.choice(alpha) for _ in range(n))
+            k = rng.choice([0, 1, 1, 2, 2, 3])
+            fl = rng.choice(FLAGS[1:])
+            if rng.random() < 0.08 and ref:
+                alpha = [a for a in alpha if a != ref[0]]
+            all_combos(alpha, ref, k, fl, "global_options_accepted_random", max_words=100)
+    finally:
+        _MODEL_LINES.clear()
+        if (global_config.should_validate_automata, global_config.allow_mutable_automata) == entry:
+            ctx.stat("global_options_switches_restored")
+        else:
+            global_config.should_validate_automata, global_config.allow_mutable_automata = entry
+            ctx.stat("global_options_switches_NOT_restored")
+
 
 def probe_empty_symbol(ctx: Ctx):
     """'' among the input symbols (F28, repaired by /repo 07f4843: the constructors refuse it).  If it
@@ -529,6 +793,12 @@ def judge_program_json(text: str):
             check_live(ctx, c["input_symbols"], c["reference_str"], c["max_edit_distance"], c["insertion"], c["deletion"],
                        c["substitution"], c["mode"], c["order_seed"], c["interleave"], origin="replay",
                        max_words=c.get("max_words", 130), model=False)
+            out += [(i, f["what"]) for f in ctx.prop_fails[n:]]
+            continue
+        if c.get("kind") == "global_options":
+            check_options(ctx, c["input_symbols"], c["reference_str"], c["max_edit_distance"], c["insertion"], c["deletion"],
+                          c["substitution"], c["should_validate_automata"], c["allow_mutable_automata"], origin="replay",
+                          max_words=c.get("max_words", 70), model=False)
             out += [(i, f["what"]) for f in ctx.prop_fails[n:]]
             continue
         check_one(ctx, c["input_symbols"], c["reference_str"], c["max_edit_distance"], c["insertion"], c["deletion"],
@@ -583,6 +853,8 @@ def run_families(ctx: Ctx):
     long_families(ctx)
     # 1c. round 4: the mutable-automata option — several queries (and other calls) on ONE NFA
     mutable_option_family(ctx)
+    # 1d. round 5: the two global switches of automata.base.config — refusals (all) and accepted cases (a slice)
+    global_options_family(ctx)
     # 2. shaped random
     for _ in range(ctx.budget(1500, 12000)):
         alpha = list(rng.choice([("a", "b"), ("a",), ("a", "b", "c"), ("0", "1"), ("x", "y", "z", "w"), ("b", "a", "é")]))
@@ -684,6 +956,10 @@ def replay(ctx: Ctx, path: str) -> int:
         check_live(ctx, rp["input_symbols"], rp["reference_str"], rp["max_edit_distance"], rp["insertion"], rp["deletion"],
                    rp["substitution"], rp["mode"], rp["order_seed"], rp["interleave"], origin="replay",
                    max_words=rp.get("max_words", 130))
+    elif rp.get("kind") == "global_options":
+        check_options(ctx, rp["input_symbols"], rp["reference_str"], rp["max_edit_distance"], rp["insertion"], rp["deletion"],
+                      rp["substitution"], rp["should_validate_automata"], rp["allow_mutable_automata"], origin="replay",
+                      max_words=rp.get("max_words", 70))
     else:
         check_one(ctx, rp["input_symbols"], rp["reference_str"], rp["max_edit_distance"], rp["insertion"],
                   rp["deletion"], rp["substitution"], origin="replay", extra_words=[rp["word"]] if "word" in rp else ())
